@@ -25,9 +25,10 @@ def obligations(tier):
                  desc='jls_raw_open("r") on a symbolic 32-byte file header: accepted => identification, checksum over bytes 0..27, major version',
                  bound='all 2^256 file headers, file length 0..40'))
     npay = 16 if tier == 'quick' else 64
-    for mode, extra, nm in (('HDR', [], 'hdr_weight3'), ('HDR', ['BURST=1'], 'hdr_burst32'), ('PAY', [], 'payload_weight3'), ('PAY', ['BURST=1'], 'payload_burst32')):
+    wmax = 2 if tier == 'quick' else 3
+    for mode, extra, nm in (('HDR', ['WMAX=%d' % wmax], 'hdr_weight%d' % wmax), ('HDR', ['BURST=1'], 'hdr_burst32'), ('PAY', ['WMAX=%d' % wmax], 'payload_weight%d' % wmax), ('PAY', ['BURST=1'], 'payload_burst32')):
         ob = Obl('O3_strength_%s' % nm, 'c04_strength.c', units=[], defines=['MODE_%s=1' % mode, 'NPAY=%d' % npay] + extra,
-                 unwind=max(66, npay + 12), timeout=900 if tier == 'quick' else 3000, backend=PORTFOLIO,
+                 unwind=max(66, npay + 12), timeout=600 if tier == 'quick' else 6000, backend=PORTFOLIO,
                  desc='real checksum (sse4 unit + instruction model): %s' % nm,
                  bound='header codeword 256 bits (zero base word; linearity from C18)' if mode == 'HDR' else 'payload 1..%d bytes + 4 footer bytes, zero base word' % npay)
         ob.units_note = ['crc32c.c -> crc32c_intel_sse4.c (included into the harness TU)']
